@@ -195,6 +195,7 @@ class SchedServer(LogServer):
     def __init__(self, gss=False, allowed="password,publickey,keyboard-interactive"):
         super().__init__(allowed=allowed)
         self.plan = "fail"       # result of the credential check of the message being handled
+        self.offered = "usual"   # what get_allowed_auths() returns while that message is handled
         self.msg = -1            # index (in the server's inbound message log) of the message being handled
         self.gss = gss
         self.calls = []          # (message index, {name, user, res}) for every credential callback
@@ -212,6 +213,11 @@ class SchedServer(LogServer):
 
     def enable_auth_gssapi(self):
         return self.gss
+
+    LISTS = {"usual": "password,publickey,keyboard-interactive", "without": "hostbased", "empty": ""}
+
+    def get_allowed_auths(self, username):
+        return self.LISTS[self.offered]
 
     def check_auth_none(self, username):
         return self._decide("none", username)
@@ -255,6 +261,8 @@ def reply_name(t, payload, req):
         return "DISCONNECT"
     if t == MSG_UNIMPLEMENTED:
         return "UNIMPLEMENTED"
+    if t == MSG_SERVICE_ACCEPT:
+        return "SERVICE_ACCEPT"
     if t == 60:      # PK_OK / INFO_REQUEST / GSSAPI_RESPONSE share the number: the request tells which
         if req["k"] == "request":
             return {"publickey": "PK_OK", "keyboard-interactive": "INFO_REQUEST",
@@ -328,7 +336,7 @@ class AuthSession:
         idx = self._nin() - 1
         self.marks[idx] = self.sample()
         self.server.msg = idx
-        self.server.plan = self.plans.get(idx, "fail")
+        self.server.plan, self.server.offered = self.plans.get(idx, ("fail", "usual"))
         if self.opts["bound"]:
             self._bind_gss_handler()
 
@@ -479,6 +487,9 @@ class AuthSession:
                     m.add_string(StubGSS.MECH)
             elif method == "gssapi-keyex":
                 m.add_string(self._mic(req, user))
+        elif k == "service_request":
+            m.add_byte(cMSG_SERVICE_REQUEST)
+            m.add_string("ssh-userauth" if req["service"] == "ssh-userauth" else names.get("service2", "ssh-connection"))
         elif k == "info_response":
             m.add_byte(cMSG_USERAUTH_INFO_RESPONSE)
             m.add_int(1)
@@ -508,7 +519,7 @@ class AuthSession:
             for i, r in enumerate(reqs):
                 ok = self.tc.is_active()
                 if ok:
-                    self.plans[base + len([x for x in sent if x])] = clean(r)["cb"]
+                    self.plans[base + len([x for x in sent if x])] = (clean(r)["cb"], clean(r)["allowed"])
                     try:
                         self.tc._send_message(self.render(r, names))
                     except Machinery:
@@ -592,7 +603,7 @@ class AuthSession:
 
 
 FIELDS = {"k": "", "user": "", "service": "", "method": "", "cb": "fail", "sig": "absent", "mic": "good",
-          "change": False, "mechs": 1, "mech_ok": True, "tok": ""}
+          "change": False, "mechs": 1, "mech_ok": True, "tok": "", "allowed": "usual"}
 
 
 def clean(req):
@@ -653,7 +664,8 @@ def real_other_session_id():
 from harness.core import cfg_text  # noqa: E402
 
 TOGGLES = {"GssHonoursCallback": True, "BlobOmits": "", "KeepsResultAfterBadSig": False, "KeepsResultOnForeignLabel": False,
-           "RekeyResetsAuthState": False, "PkOkCachesApproval": False,
+           "RekeyResetsAuthState": False, "PkOkCachesApproval": False, "EmptyListPromotesPartial": False,
+           "ServiceRequestResets": False,
            "ProbeAuthenticates": False, "PinsUser": True, "PartialCounts": False, "CapOffset": 0}
 ALL_CONFIGS = {"plain", "gss", "gss+ctx", "gss+bound", "gss+ctx+bound"}
 INVS = ["GrantNeedsApproval", "OneUser", "CapRespected"]
@@ -663,7 +675,7 @@ C14_CLAUSES = {"P_GrantNeedsApproval", "P_SuccessMeansAuthenticated", "P_ProbeNe
 C16_CLAUSES = {"P_OneUser", "P_SwitchEnds", "P_CapRespected", "P_CapExact", "P_NoCheckAfterDeath"}
 # short runs on a shared machine: no optimising compiler, small heap, few GC / compiler threads (JVM start-up dominates)
 JVM = {"JAVA_TOOL_OPTIONS": "-XX:TieredStopAtLevel=1 -Xmx2g -XX:ParallelGCThreads=2 -XX:CICompilerCount=1"}
-ENC = ["k", "user", "service", "method", "cb", "sig", "mic", "change", "mechs", "mech_ok", "tok"]
+ENC = ["k", "user", "service", "method", "cb", "sig", "mic", "change", "mechs", "mech_ok", "tok", "allowed"]
 
 
 def consts(**kw):
@@ -711,8 +723,8 @@ def primary(msgs):
 
 
 def step_method(req, mode):
-    if req["k"] == "rekey":
-        return "rekey"
+    if req["k"] in ("rekey", "service_request"):
+        return req["k"]
     if req["k"] == "request":
         return req["method"]
     if req["k"] == "gss_mic" or mode == "gss":
@@ -841,6 +853,8 @@ def random_job(rnd, length, p, tag):
         cb = "ok" if rnd.random() < p.get("ok", 0.1) else rnd.choice(["fail", "fail", "partial"])
         if rnd.random() < p.get("rekey", 0.06):
             seq.append({"k": "rekey", "tok": rnd.choice(["client", "client", "server"])})
+        if rnd.random() < p.get("service_request", 0.08):
+            seq.append({"k": "service_request", "service": "other" if rnd.random() < 0.05 else "ssh-userauth"})
         if x < 0.70:
             user = "eve" if rnd.random() < p.get("switch", 0.02) else "alice"
             service = "other" if rnd.random() < p.get("service", 0.02) else "ssh-connection"
@@ -867,6 +881,9 @@ def random_job(rnd, length, p, tag):
             seq.append({"k": "gss_token", "tok": rnd.choice(["more", "done", "done", "error"]), "cb": cb})
         else:
             seq.append({"k": "gss_mic", "mic": rnd.choice(MIC_KINDS + ["good", "good"]), "cb": cb})
+    for q in seq:       # what the application offers as "methods that can continue" while it answers
+        if q["k"] in ("request", "info_response", "gss_mic") and rnd.random() < p.get("odd_list", 0.25):
+            q["allowed"] = rnd.choice(["empty", "without"])
     bursts, i = [], 0
     while i < len(seq):
         n = 1 if rnd.random() < 0.5 else rnd.randint(2, 6)
